@@ -5,7 +5,8 @@ from p_C07 import GatherGen, c14_witness
 
 class C14(SeqProp):
     pid = "C14"
-    spec_import = "Require Import PV.Spec.SpecC14."
+    spec_import = "Require Import PV.Spec.SpecC14.\nRequire PV.Proofs.C14SpecCustom."
+    dom_fn = "PV.Proofs.C14SpecCustom.dom14c"
     spec_fn = "spec_c14"
     known_fn = "known_c14"
     rule = ("scenarios as for C07 (1-8 collectors of all kinds in 1-3 name families, children, updates, the same set registered in "
